@@ -36,6 +36,7 @@ def plan(tier, d0=None, dseed=None):
             p.append((s, "free", dseed + 1, "quick"))
         for mode in ("cont", "free"):
             p.append(("empty", mode, d0, "low"))
+            p.append(("empty", mode, d0 - 1, "rich"))
     else:
         d0 = d0 or 5
         dseed = dseed or 3
